@@ -123,6 +123,9 @@ def types_arg(types, form):
         return tuple(message_type_to_class[v] for v in vals)
     if form == 'mixed':
         return [message_type_to_class.get(v, v) for v in vals]
+    r = one_shot(vals, form)
+    if r is not None:
+        return r
     return set(vals)
 
 
@@ -134,7 +137,36 @@ def srcs_arg(srcs, form):
         return list(srcs)
     if form == 'tuple':
         return tuple(srcs)
+    r = one_shot(list(srcs), form)
+    if r is not None:
+        return r
+    if form == 'ndarray':
+        import numpy as np
+        return np.array(list(srcs), dtype=np.int64)
+    if form == 'range' and srcs and sorted(srcs) == list(range(min(srcs), max(srcs) + 1)):
+        return range(min(srcs), max(srcs) + 1)
     return set(srcs)
+
+
+def one_shot(vals, form):
+    """iterables that can be consumed only once (or are not plain containers): generator, iterator, map, dict keys
+    view, frozenset"""
+    if form == 'gen':
+        return (v for v in vals)
+    if form == 'iter':
+        return iter(vals)
+    if form == 'map':
+        return map(lambda v: v, vals)
+    if form == 'filter':
+        return filter(lambda v: True, vals)
+    if form == 'keys':
+        return {v: None for v in vals}.keys()
+    if form == 'frozenset':
+        return frozenset(vals)
+    return None
+
+
+ONE_SHOT_FORMS = ('gen', 'iter', 'map', 'filter')
 
 
 def aliased(results, flags):
